@@ -305,7 +305,13 @@ impl Gen {
                         if caller == sc.admin { None } else { Some(vec![rng.below(50)]) }
                     } else {
                         let k = 1 + rng.below(pool.len() as u64) as usize;
-                        Some(pool.into_iter().take(k).collect())
+                        let mut sel: Vec<u64> = pool.into_iter().take(k).collect();
+                        // a slip rather than dishonesty: the same refundable packet named twice
+                        if rng.chance(1, 4) {
+                            let d = *rng.pick(&sel);
+                            sel.push(d);
+                        }
+                        Some(sel)
                     }
                 } else {
                     None
